@@ -165,7 +165,8 @@ PM_NOTE = ('Modelled, not verified: Process.step / step_until_terminated / pause
            'Control requests issued from INSIDE listener notifications and state-event callbacks (during transitions, during the '
            'enactment of a pending request) are modelled by PMF.L (lean/PlumpyModel/PM/Listener.lean: the same functions with an '
            'oracle plan consulted at every notification point) and compared after every op through `pmodel pml` on every case of '
-           'the listener stream.')
+           'the listener stream. With the empty plan PMF.L is PMF: theorem C01_listener_conservative_proved (every field of the '
+           'configuration, every return value, every history); the model-vs-model twin stream checks the same on the compiled drivers.')
 
 
 def pm(text, technique='Lean 4 invariant proofs over the process-control model (induction over arbitrary event histories) + '
@@ -179,6 +180,12 @@ CLAIMED.update({
               'that graph) and C01_terminal_states_final (from any terminal configuration no history changes state or log). '
               'With requests issued by listeners / state-event callbacks during transitions (model PMF.L): '
               'C01_listener_edges_documented, C01_listener_terminal_states_final, C01_listener_terminal_transition_completes. '
+              'The two models are tied by a theorem: C01_listener_conservative_proved / C01_listener_conservative_returns (with the '
+              'empty plan the run of PMF.L carries, after every history, exactly the configuration of PMF and every event returns '
+              'the same value), resting on C01_pending_pause_is_recorded (invariant of the ORIGINAL model: a pending pause action '
+              'in the interrupt slot is the one recorded in _pausing, so the "retracted while transitioning" test and the '
+              'conditional set_result of the real CancellableAction.run, absent from the original runAction, are unobservable '
+              'without listeners) and C01_listener_stepping_is_executing. '
               'The Python monitor checks the same two clauses on every explored real run.'),
     'C02': pm('Theorems C02_outcome_agrees / C02_nothing_reported_while_live / C02_future_resolved_iff_terminated (and, with requests '
               'issued by listeners during transitions, C02_listener_outcome_agrees / C02_listener_nothing_reported_while_live): for every history, '
@@ -188,7 +195,12 @@ CLAIMED.update({
               'the linking invariant Inv10 over all reachable configurations (PM/Proof10.lean): C02_stepper_never_crashes, '
               'C02_waiting_stepper_is_released, C02_paused_stepper_is_released; plus the configuration-level '
               'C02_stepper_returns_partial and the release lemmas C02_termination_releases_pause / '
-              'C02_leaving_waiting_completes_wait. The correspondence (task status compared after every op) and the monitor tie '
+              'C02_leaving_waiting_completes_wait. The same with requests issued by listeners / state-event callbacks during '
+              'transitions (model PMF.L, every program, plan and history; the linking invariant lifted as Inv10L, PM/LProof16-18): '
+              'C02_listener_stepper_returns, C02_listener_stepper_never_crashes, C02_listener_waiting_stepper_is_released, '
+              'C02_listener_paused_stepper_is_released, and C02_listener_closing_loop_ends (the while loop of the closing part of '
+              'step() is never stopped by the bound of the model: it ends because nothing is left to enact). '
+              'The correspondence (task status compared after every op) and the monitor tie '
               'the model to the code.'),
     'C04': pm('Theorems C04_kill_total, C04_kill_when_idle, C04_kill_committed (after kill() handed back an action, every further '
               'history leaves the process KILLED, EXCEPTED or with that kill still the pending interrupt action), '
